@@ -13,7 +13,8 @@
 (*   fscale       : arange(0, floor(n/2)+1)/n  ++  -fsc[slice(-2 + n%2, 0, -1)]  *)
 (*   freduce      : take(0 .. floor(n/2 + 1) - 1)                               *)
 (*   fexpand      : x ++ conj(flip(take(x, 1 .. ilast-1))), ilast = (n + n%2)/2  *)
-(*   _freq_filter : gain on the half scale, fexpand'ed to all bins               *)
+(*   _freq_filter : gain on the half scale, fexpand'ed to all bins, reshaped to  *)
+(*                  broadcast along the filtered axis                            *)
 (* Property layer: FullP, SameP, NsOptimP, FScaleP, ReduceP, ExpandP,           *)
 (* FilterBinsP, ComplementP over returned lengths / positions / index maps.     *)
 (***************************************************************************)
@@ -21,7 +22,8 @@ EXTENDS Integers, Sequences, FiniteSets, TLC
 
 CONSTANTS MaxN,       \* signal and kernel lengths 1..MaxN
           Basis,      \* "all": every impulse pair, "corners": first and last impulse only
-          Variant     \* "fixed" = irfft(..., n=ns); "orig" = irfft without its length (F9)
+          Variant     \* "fixed" = irfft(..., n=ns), gain reshaped along `axis`; "orig" = tree before the fix:
+                      \* commits: irfft without its length (F9), gain[:, newaxis] unless last axis (F14)
 
 VARIABLES nsx, nsw, i, j, mode, pc, ns, p, len, garbage, lo, hi
 
@@ -164,6 +166,24 @@ FilterBinsP(n, B(_), G(_)) == \A m \in 0..(n - 1) : B(m) = G(Abs(FScaleImpl(n)[m
 Complement(a, b) == \/ (a = <<"0">> /\ b = <<"1">>) \/ (a = <<"1">> /\ b = <<"0">>)
                     \/ (a[1] = "c" /\ b[1] = "1-c" /\ a[2] = b[2]) \/ (a[1] = "1-c" /\ b[1] = "c" /\ a[2] = b[2])
 ComplementP(n, L(_), H(_)) == \A m \in 0..(n - 1) : Complement(L(m), H(m))
+
+\* broadcasting of the gain against an array filtered along `axis` (0-based, may be negative):
+\* implementation = the shape the gain vector is given before the product with fft(ts, axis)
+NormAxis(nd, axis) == IF axis < 0 THEN nd + axis ELSE axis
+GainShapeImpl(nd, axis, n) ==
+    IF Variant = "orig" THEN (IF axis < nd - 1 THEN <<n, 1>> ELSE <<n>>)      \* filc[:, np.newaxis] unless last axis (F14)
+    ELSE [d \in 1..nd |-> IF d = NormAxis(nd, axis) + 1 THEN n ELSE 1]      \* shape[axis] = ns, 1 elsewhere
+\* property: under NumPy's right-aligned broadcasting against an array of shape sh, the gain varies along the
+\* filtered axis and along no other axis
+GainAlignedP(sh, axis, g) ==
+    LET nd == Len(sh)
+        pad == nd - Len(g)
+        At(d) == IF d <= pad THEN 1 ELSE g[d - pad]          \* right-aligned, missing leading dims are 1
+    IN /\ pad >= 0
+       /\ \A d \in 1..nd : At(d) = (IF d = NormAxis(nd, axis) + 1 THEN sh[d] ELSE 1)
+FilterAxes == (pc = "args" /\ nsx = 1 /\ nsw = 1 /\ mode = "full") =>
+    \A nd \in 1..3 : \A sh \in [1..nd -> 2..4] : \A axis \in (-nd)..(nd - 1) :
+        GainAlignedP(sh, axis, GainShapeImpl(nd, axis, sh[NormAxis(nd, axis) + 1]))
 
 -----------------------------------------------------------------------------
 (* the model's instances *)
